@@ -63,14 +63,15 @@ static Source gen_source(Tape &t, bool square_only, std::string &fam, bool &shuf
 }
 
 template <class PT, class CT>
-void check_tuple_types(const Source &src, const std::string &tag) {
+void check_tuple_types(const Source &src, const std::string &tag, bool data_ptrs) {
     size_t n = static_cast<size_t>(src.A.n);
     std::vector<PT> ptr = conv<PT>(src.A.ptr); std::vector<CT> col = conv<CT>(src.A.col);
     const std::vector<double> &val = src.A.val;
     // std::tie: tuple of references to std::vector
     auto T1 = std::tie(n, ptr, col, val);
     require_operator(T1, src, "tuple<vector<" + tag + ">> (std::tie)");
-    VF_REQUIRE(ab::ptr_data(T1) == ptr.data() && ab::col_data(T1) == col.data() && ab::val_data(T1) == val.data(), "tuple<" << tag << ">: ptr_data/col_data/val_data do not point at the user arrays");
+    VF_REQUIRE(ab::ptr_data(T1) == ptr.data(), "tuple<" << tag << ">: ptr_data does not point at the user array");
+    if (data_ptrs) VF_REQUIRE(ab::col_data(T1) == col.data() && ab::val_data(T1) == val.data(), "tuple<" << tag << ">: col_data/val_data do not point at the user arrays");
     for (ptrdiff_t i = 0; i < src.A.n; ++i) VF_REQUIRE(static_cast<ptrdiff_t>(ab::row_nonzeros(T1, i)) == src.A.ptr[i + 1] - src.A.ptr[i], "tuple<" << tag << ">: row_nonzeros(" << i << ")");
     // make_tuple of amgcl::iterator_range over raw pointers (documented form for raw arrays)
     auto T2 = std::make_tuple(n, amgcl::make_iterator_range(ptr.data(), ptr.data() + ptr.size()), amgcl::make_iterator_range(col.data(), col.data() + col.size()),
@@ -111,15 +112,18 @@ static void prop_adapters(Tape &t, Ctx &c) {
     c.label("fam:" + fam.substr(0, fam.find(':'))); c.label(square ? "square" : "rect"); c.label(unsorted3 ? "row-out-of-order(>=3)" : "rows-in-order");
     c.label(size_bucket(A.n));
     size_t n = static_cast<size_t>(A.n), m = static_cast<size_t>(A.m);
+    // Known finding F-tuple-data-empty: col_data()/val_data() of the tuple adapter form `&range[0]` on an empty range when the
+    // matrix has no stored entries (UBSan: reference binding to null pointer).  That one call is made last, see the end of this function.
+    const bool has_entries = A.nnz() > 0;
 
     if (square) {
-        check_tuple_types<int, int>(src, "int");
-        check_tuple_types<long, long>(src, "long");
-        check_tuple_types<unsigned, unsigned>(src, "unsigned");
-        check_tuple_types<size_t, size_t>(src, "size_t");
-        check_tuple_types<ptrdiff_t, ptrdiff_t>(src, "ptrdiff_t");
-        check_tuple_types<size_t, int>(src, "size_t/int");
-        check_tuple_types<int, ptrdiff_t>(src, "int/ptrdiff_t");
+        check_tuple_types<int, int>(src, "int", has_entries);
+        check_tuple_types<long, long>(src, "long", has_entries);
+        check_tuple_types<unsigned, unsigned>(src, "unsigned", has_entries);
+        check_tuple_types<size_t, size_t>(src, "size_t", has_entries);
+        check_tuple_types<ptrdiff_t, ptrdiff_t>(src, "ptrdiff_t", has_entries);
+        check_tuple_types<size_t, int>(src, "size_t/int", has_entries);
+        check_tuple_types<int, ptrdiff_t>(src, "int/ptrdiff_t", has_entries);
         c.label("tuple-index-types");
         // row-builder callback
         RowBuilder rb; rb.A = &A;
@@ -187,6 +191,13 @@ static void prop_adapters(Tape &t, Ctx &c) {
         require_same_rows(Mp, src, "Eigen::Map<SparseMatrix<RowMajor,int>>", true, true);
         require_copy<double, ptrdiff_t, ptrdiff_t>(Mp, src, "Eigen::Map<SparseMatrix<RowMajor,int>>", true);
         VF_REQUIRE(ip == conv<int>(A.ptr) && ic == conv<int>(A.col) && v == A.val, "Eigen::Map: user arrays modified");
+    }
+    if (square && !has_entries) {
+        c.label("matrix-without-entries");
+        if (c.known("F-tuple-data-empty")) return;
+        std::vector<int> ptr = conv<int>(A.ptr), col; std::vector<double> val;
+        auto T = std::tie(n, ptr, col, val);
+        (void)ab::col_data(T); (void)ab::val_data(T);
     }
 }
 
@@ -278,10 +289,16 @@ static std::vector<double> nonzero_rhs(Tape &t, const Csr<double> &A, std::strin
     return f;
 }
 
-static void require_solves_original(Ctx &c, const std::string &what, const Csr<double> &A, const std::vector<double> &f, const std::vector<double> &x, size_t iters, double resid, double tol, long double extra = 1) {
+// x0: initial approximation handed to the solver (the drift of the recursively updated residual scales with the largest iterate, which
+// may be the initial one); empty = zero start
+static void require_solves_original(Ctx &c, const std::string &what, const Csr<double> &A, const std::vector<double> &f, const std::vector<double> &x, size_t iters, double resid, double tol,
+                                    const std::vector<double> &x0 = std::vector<double>()) {
+    const long double extra = 1;
     for (double v : x) VF_REQUIRE(std::isfinite(v), what << ": non-finite solution");
     long double rho = true_relres(A, f, x);
-    long double allow = drift_allowance(A, f, x, iters);
+    std::vector<double> xs = x;
+    for (size_t i = 0; i < x0.size(); ++i) xs[i] = std::max(std::abs(xs[i]), std::abs(x0[i]));
+    long double allow = drift_allowance(A, f, xs, iters);
     VF_REQUIRE(resid <= tol, what << ": solver reports " << resid << " > tol after " << iters << " iterations");
     VF_REQUIRE(rho <= (static_cast<long double>(resid) + allow) * extra, what << ": mapped-back solution does not solve the ORIGINAL system: true residual " << static_cast<double>(rho)
                << ", reported (for the transformed system) " << resid << ", allowance " << static_cast<double>(allow) << " factor " << static_cast<double>(extra));
@@ -352,7 +369,7 @@ void check_reorder(Tape &t, Ctx &c, const Csr<double> &A, const std::vector<doub
         perm.forward(x0, xo);
         std::tie(iters, resid) = solve(fo, xo);
         perm.inverse(xo, x);
-        require_solves_original(c, tag + ":forward/solve/inverse", A, f, x, iters, resid, tol);
+        require_solves_original(c, tag + ":forward/solve/inverse", A, f, x, iters, resid, tol, x0);
     }
 }
 
